@@ -198,7 +198,11 @@ class KernelSim(WorldBase):
                 if idiom == 3:
                     # a traced plain walk resumed at a position (optionally over a coordinate range)
                     sp = g.choice([0, 1, 1, 2])
-                    iv = [g.randint(0, Kk), Kk + 1] if g.random() < 0.4 else None
+                    # (the range may end before the fiber does: the walk then stops early)
+                    iv = None
+                    if g.random() < 0.5:
+                        lo = g.randint(0, Kk)
+                        iv = [lo, g.choice([Kk + 1, g.randint(lo + 1, Kk + 1)])]
                     dense_outer = g.random() < 0.4
                     if dense_outer:
                         sp = g.choice([None, 0])
@@ -242,6 +246,10 @@ class KernelSim(WorldBase):
             for m in masks:
                 evs.append(["session", {"role": "isect", "flow": flow, "prefix": "i", "rank": v, "model": model,
                                         "mask": m, "reg": [], "end": "normal"}])
+            # the consumer asks for its traces only after a first pass of the kernel has run in the session
+            for m in (0, (1 << 48) - 1, g.getrandbits(48)):
+                evs.append(["session", {"role": "isect", "flow": flow, "prefix": "i", "rank": v, "model": model,
+                                        "mask": m, "reg": [], "end": "normal", "warmup": True}])
         return evs
 
     def _plan_c19_pairs(self, g):
